@@ -93,7 +93,9 @@ CLAIMED = {
         technique="Lean 4 round-trip theorem escape/double-quote scanner + correspondence + execution oracle",
         design="7/C08"),
     "C09": dict(
-        text="SEMANTIC SIDE OF THE REMOVAL (Props/C09Sem.lean, unused_function_removal_is_safe): the program Parse returns is the program it has read (imported files and main "
+        text="VISIBILITY (imports_expose_only_public_names): for all file systems and import graphs the context in which a file's own statements are parsed holds, from its imports, "
+             "only public functions and variables - alias.name can resolve to nothing else. "
+             "SEMANTIC SIDE OF THE REMOVAL (Props/C09Sem.lean, unused_function_removal_is_safe): the program Parse returns is the program it has read (imported files and main "
              "file, parseRaw) with the unreached function definitions filtered out, and whenever every call of the kept code goes to a kept function (graphCovers, decidable, "
              "evaluated by the Lean driver on the statements and the call graph of every program the check parses: 300 of 300 in the quick tier, 4242 definitions removed) every "
              "outcome of the full program in the source semantics Sem2/Src (exit status, printed lines) is the outcome of the reduced program - for all programs, by induction over "
